@@ -66,11 +66,9 @@ static void c19_segment(void)
 }
 
 /* header value ranges of the property's quantifier */
-#define C19_HEADER_RANGES() do_c19_ranges(hmethod, uid, gid, clen, len)
-static void do_c19_ranges(const u8 *m, u32 uid, u32 gid, u64 clen, u64 len)
+#define C19_HEADER_RANGES() do_c19_ranges(uid, gid, clen, len)
+static void do_c19_ranges(u32 uid, u32 gid, u64 clen, u64 len)
 {
-	unsigned i;
-	for (i = 0; i < 5; ++i) ASSUME(m[i] >= 0x20 && m[i] <= 0x7e);
 	ASSUME(uid <= 65535 && gid <= 65535 && clen <= 0xffffffffu && len <= 0xffffffffu);
 }
 #endif
